@@ -19,6 +19,10 @@ static lp_polynomial_t* gen_main(int nv, unsigned d, int shape) {
   return p;
 }
 
+#ifdef LPV_HAVE_CXX_SHIM
+lp_polynomial_t* lpv_cxx_discriminant(const lp_polynomial_t* p);
+#endif
+
 static void res_case(void) {
   int nv = 1 + (int)rnd(3);
   unsigned da = 1 + rnd(3), db = 1 + rnd(3);
@@ -49,6 +53,15 @@ static void res_case(void) {
   if (lp_polynomial_top_variable(A) != hp_x[nv - 1] || lp_polynomial_top_variable(B) != hp_x[nv - 1]) { lp_polynomial_delete(A); lp_polynomial_delete(B); return; }
   size_t dA = lp_polynomial_degree(A), dB = lp_polynomial_degree(B);
   size_t sz = (dA < dB ? dA : dB) + 1;
+#ifdef LPV_HAVE_CXX_SHIM
+  if (chance(12) && dA >= 1 && dA <= 4) {      /* poly::discriminant(A) = resultant(A, A') / lc(A); 1 for degree 1 */
+    sb_begin("res", "disc"); sb_sp(); hp_ring_token(0); sb_sp(); sb_ulong(hp_x[nv - 1]); sb_sp(); sb_poly(A); sb_arrow();
+    lp_polynomial_t* D = lpv_cxx_discriminant(A);
+    sb_sp(); sb_poly(D); sb_emit();
+    lp_polynomial_delete(D); lp_polynomial_delete(A); lp_polynomial_delete(B);
+    return;
+  }
+#endif
   unsigned op = rnd(3);
 #define RHEAD(nm) sb_begin("res", nm); sb_sp(); hp_ring_token(0); sb_sp(); sb_ulong(hp_x[nv - 1]); sb_sp(); sb_poly(A); sb_sp(); sb_poly(B); sb_arrow()
   if (op == 0) {
